@@ -20,6 +20,9 @@ from .symnp import CArr, SArr, _A, _sel, _tolist
 _b_any, _b_all, _b_min, _b_max, _b_sum = builtins.any, builtins.all, builtins.min, builtins.max, builtins.sum
 
 
+CSV_LOG = []  # frames passed to DataFrame.to_csv(<stream>, ...) in a symbolic run
+
+
 def __getattr__(name):
     attr = getattr(_pd, name)
     if callable(attr) and not isinstance(attr, type):
@@ -851,6 +854,11 @@ class SFrame:
         return self._rows(list(range(_b_min(n, len(self)))))
 
     def to_csv(self, *a, **kw):
+        # stub E9: text rendering is not a subject; rows written to a stream are recorded for the harness
+        target = a[0] if a else kw.get("path_or_buf")
+        if target is not None:
+            CSV_LOG.append(self)
+            return None
         if self.concrete():
             return self.to_real().to_csv(*a, **kw)
         return "<symbolic rows>"
